@@ -369,4 +369,16 @@ def Circ.compileLayersOnly (c : Circ) : Except Err Circ :=
   | .error e => .error e
   | .ok (Ls, _, _) => .ok { c with layers := Ls }
 
+/-! ## random-circuit constructors: `brickwall_rcc`, `onsite_rcc`, `global_rcc` (gates without generator or map) -/
+/-- `for l in range(depth): for i in range(l % 2, N, 2): circ.gate(i, (i+1) % N)` -/
+def brickwallPairs (N depth : Nat) : List (List Nat) :=
+  (List.range depth).flatMap fun l => ((List.range N).filter fun i => i % 2 = l % 2).map fun i => [i, (i + 1) % N]
+/-- `circ.gate(*qubits)` for every qubit list in turn -/
+def rccOf (N : Nat) (qss : List (List Nat)) : Except Err Circ :=
+  qss.foldlM (fun c qs => c.take { qubits := qs }) { N := N }
+def brickwallRcc (N depth : Nat) : Except Err Circ :=
+  if N % 2 ≠ 0 then .error .assertion else rccOf N (brickwallPairs N depth)
+def onsiteRcc (N : Nat) : Except Err Circ := rccOf N ((List.range N).map fun i => [i])
+def globalRcc (N : Nat) : Except Err Circ := rccOf N [List.range N]
+
 end PC
